@@ -126,6 +126,7 @@ type ObligResult struct {
 	Params        map[string]int    `json:"params"`
 	Desc          string            `json:"desc"`
 	Assumes       []string          `json:"assumes,omitempty"`
+	RewriteNotes  []string          `json:"rewrite_fallbacks,omitempty"`
 	NativeReplays int               `json:"native_replays"`
 	Validated     int               `json:"vectors_validated"`
 }
@@ -248,6 +249,16 @@ func buildOverlay(o *Oblig, withReplayTest bool) (map[string][]byte, string) {
 		if !filepath.IsAbs(p) {
 			p = filepath.Join(repoDir, p)
 		}
+		if src, err := os.ReadFile(p); err != nil || !hasFuncDecl(p, src, r.Recv, r.Func) {
+			// the function was moved to another file of the package
+			for _, q := range siblingGoFiles(p) {
+				if s2, err := os.ReadFile(q); err == nil && hasFuncDecl(q, s2, r.Recv, r.Func) {
+					rewriteNotes = append(rewriteNotes, fmt.Sprintf("rename of %s.%s: found in %s instead of %s", r.Recv, r.Func, q, p))
+					p = q
+					break
+				}
+			}
+		}
 		byFile[p] = append(byFile[p], r)
 	}
 	for p, rs := range byFile {
@@ -331,8 +342,56 @@ func buildOverlay(o *Oblig, withReplayTest bool) (map[string][]byte, string) {
 				fatal("rewrite: %v", err)
 			}
 		}
+		if os.Getenv("VERIF_FORCE_REWRITE_FALLBACK") != "" && !rw.Optional {
+			// self-test of the fallback: use it although the exact text is present
+			if out, ok := applyRewriteFallback(p, src, rw); ok {
+				ov[p] = out
+				doneRw[key] = true
+				continue
+			}
+		}
 		if !bytes.Contains(src, []byte(rw.Old)) {
 			if rw.Optional {
+				continue
+			}
+			if out, ok := applyRewriteFallback(p, src, rw); ok {
+				ov[p] = out
+				doneRw[key] = true
+				continue
+			}
+			// the code was moved to another file of the package
+			moved := false
+			for _, q := range siblingGoFiles(p) {
+				s2, ok := ov[q]
+				if !ok {
+					s2, _ = os.ReadFile(q)
+				}
+				if bytes.Contains(s2, []byte(rw.Old)) {
+					if all {
+						ov[q] = bytes.ReplaceAll(s2, []byte(rw.Old), []byte(rw.New))
+					} else {
+						ov[q] = bytes.Replace(s2, []byte(rw.Old), []byte(rw.New), 1)
+					}
+					rewriteNotes = append(rewriteNotes, fmt.Sprintf("rewrite of %q: found in %s instead of %s", rw.Old, q, p))
+					moved = true
+					break
+				}
+			}
+			if !moved {
+				for _, q := range siblingGoFiles(p) {
+					s2, ok := ov[q]
+					if !ok {
+						s2, _ = os.ReadFile(q)
+					}
+					if out, ok := applyRewriteFallback(q, s2, rw); ok {
+						ov[q] = out
+						moved = true
+						break
+					}
+				}
+			}
+			if moved {
+				doneRw[key] = true
 				continue
 			}
 			fatal("rewrite: text %q not found in %s (harness out of date with the tree)", rw.Old, p)
@@ -344,6 +403,54 @@ func buildOverlay(o *Oblig, withReplayTest bool) (map[string][]byte, string) {
 		}
 	}
 	return ov, pkgName
+}
+
+// siblingGoFiles lists the other non-test Go source files of p's directory.
+func siblingGoFiles(p string) []string {
+	ents, _ := os.ReadDir(filepath.Dir(p))
+	var out []string
+	for _, e := range ents {
+		n := e.Name()
+		if e.IsDir() || !strings.HasSuffix(n, ".go") || strings.HasSuffix(n, "_test.go") || n == filepath.Base(p) {
+			continue
+		}
+		out = append(out, filepath.Join(filepath.Dir(p), n))
+	}
+	return out
+}
+
+func hasFuncDecl(p string, src []byte, recvName, name string) bool {
+	if !bytes.Contains(src, []byte(name)) {
+		return false
+	}
+	fs := token.NewFileSet()
+	f, err := parser.ParseFile(fs, p, src, 0)
+	if err != nil {
+		return false
+	}
+	for _, d := range f.Decls {
+		fd, ok := d.(*ast.FuncDecl)
+		if !ok || fd.Name.Name != name {
+			continue
+		}
+		recv := ""
+		if fd.Recv != nil && len(fd.Recv.List) == 1 {
+			t := fd.Recv.List[0].Type
+			if st, ok := t.(*ast.StarExpr); ok {
+				t = st.X
+			}
+			if ix, ok := t.(*ast.IndexExpr); ok {
+				t = ix.X
+			}
+			if id, ok := t.(*ast.Ident); ok {
+				recv = id.Name
+			}
+		}
+		if recv == recvName {
+			return true
+		}
+	}
+	return false
 }
 
 func pkgPathOf(o *Oblig) string {
@@ -435,7 +542,12 @@ func runOblig(o *Oblig, tier string) *ObligResult {
 	t0 := time.Now()
 	tc := tierOf(o, tier)
 	res := &ObligResult{ID: o.ID, Property: o.Property, Tier: tier, Bounds: o.Bounds, Params: tc.Params, Desc: o.Desc, Assumes: o.Assumes}
+	rewriteNotes = nil
 	ov, _ := buildOverlay(o, false)
+	res.RewriteNotes = rewriteNotes
+	for _, n := range rewriteNotes {
+		res.Assumes = append(append([]string{}, res.Assumes...), "source rewrite applied through its token-level fallback (tree differs from the text the harness was written against): "+n)
+	}
 	prog, err := symgo.Load(repoDir, pkgPathOf(o), o.Roots, ov, "verif")
 	if err != nil {
 		res.Status = "error"
